@@ -68,6 +68,28 @@ CHECKS = {
          "keeps the body from running, unrelated elements keep status and step calls of the real fault-free run, before_all aborts, --stop stops; no hooks in dry-run or for de-selected scenarios.",
          "Trusts vlib/refrun.py hook grammar; KeyboardInterrupt in hooks is out of the quantifier; order among after_tag hooks of one element compared as multiset.",
          "DESIGN.md section 5, C12"),
+
+ "C14": ("exploration",
+         "exhaustive enumeration of runs (C01 program/outcome/config/fault space) with the real SummaryReporter in all five output formats and a walked SummaryCollector, compared with an independent census of the model",
+         "For every enumerated run the per-kind per-status tables of the real SummaryReporter and of SummaryCollector, their failing/errored scenario listings and the numbers parsed back from the text of "
+         "each output format (v1, v1A, v1B, v2, v3; one selected through userdata) must equal an independent census of the model after the run (outline rows counted once each, background step copies per scenario); "
+         "per-kind counts must add up to the number of elements.",
+         "Trusts the 30-line census walker and the regex grammar used to parse the five text formats; SummaryReporterV2 (not wired into behave, raises on print) is outside the property's two implementations and not exercised.",
+         "DESIGN.md section 5, C14"),
+ "C10": ("exploration",
+         "exhaustive enumeration of every line number (0..last+3) of rendered documents, location multisets, file lists / @listfiles and name patterns against a reference line map",
+         "150 rendered documents (15 shapes x 5 layouts x 2 headers) with known entity start lines; every single line on all of them, all pairs (thorough: triples) of entity-adjacent lines, lists over two files incl. "
+         "interleaved order, @listfile with comments/blank lines/relative paths/indentation, FileLocationParser inputs, and name patterns from names/substrings/anchors/alternations; selection after parse_features and after a real run "
+         "is compared with the reference selection (nearest entity at or above the line; union for several locations; setup/teardown kept).",
+         "Trusts the check's own renderer/line map; multi-location selections are checked differentially against single-location selections which are checked against the reference.",
+         "DESIGN.md section 5, C10"),
+ "C06": ("model_checking",
+         "exhaustive outline enumeration (placeholder positions x blocks x rows x cell values x schemas, deviation-bounded) plus explicit-state breadth-first search over examples-table edit histories with canonical-state deduplication and a no-dedup cross-check",
+         "All 64 subsets of placeholder positions x block/row/value/schema deviations up to the bound: generated scenarios (order, names, step names, doc-strings, step tables, tags, line, parent) compared with a reference "
+         "simultaneous-substitution expansion, template bit-identical before/after, rows independent; breadth-first search over {read scenarios, add_row, add_column, remove_column, append examples, run} histories to depth 4 "
+         "(thorough 6): after every operation .scenarios equals the reference expansion of the current tables.",
+         "Trusts the reference expansion in checks/c06_outline_expansion.py; cell values containing '<' or '>' are excluded (statement: other column names as plain text); canonical abstraction validated by a no-dedup search to a smaller depth.",
+         "DESIGN.md section 5, C06"),
 }
 PENDING_REASON = "check not built yet in this round (planned, see DESIGN.md section 5); nothing is claimed for it so far"
 
